@@ -214,7 +214,8 @@ def walks_to_scenarios(behaviours, rf, first_id):
                     pending = a["a"]
             elif name == "AddCommit":
                 if pending == a["a"]:
-                    ops.append({"ev": "Add", "a": a["a"], "cf": a.get("cf", False), "F": a.get("S", [])})
+                    ops.append({"ev": "Add", "a": a["a"], "cf": a.get("cf", False), "F": [x for x in a.get("S", []) if x != "modefail"],
+                                "mf": "modefail" in a.get("S", [])})
                     pending = None
                 elif a["a"] in gated:
                     ops.append({"ev": "AddEnd", "a": a["a"], "cf": a.get("cf", False), "F": a.get("S", [])})
@@ -327,6 +328,8 @@ def event_to_op(e):
         return {"ev": "Race", "a": a["race"], "k": a.get("k", 6)}
     if ev == "Noop" and a.get("snaprace"):
         return {"ev": "SnapRace", "name": a["snaprace"], "k": a.get("k", 6)}
+    if ev == "Noop" and a.get("snapremove"):
+        return {"ev": "SnapRemove", "name": a["snapremove"], "a": a["victim"]}
     if ev == "Noop" and a.get("addrace"):
         return {"ev": "AddRace", "a": a["addrace"], "k": a.get("k", 12)}
     m = {"VerifyRebuild": "Verify", "RemoveReplica": "Remove", "AddCheck": "Add", "AddCommit": "AddEnd"}
@@ -346,8 +349,12 @@ def event_to_op(e):
         return {"ev": "Resize", "F": a.get("F", [])}
     if ev in IO_EVS:
         op["F"] = a.get("A", [])
+        if a.get("variant"):
+            op["mode"] = a["variant"]
     elif ev in ("Add", "Snapshot", "AddCommit"):
-        op["F"] = a.get("S", [])
+        op["F"] = [x for x in a.get("S", []) if x != "modefail"]
+        if "modefail" in a.get("S", []):
+            op["mf"] = True
     elif ev == "VerifyRebuild":
         op["F"] = a.get("F", [])
     return op
